@@ -7,7 +7,7 @@ from models import refstore
 ID = "C12"
 RULE = (
     "two families of cases, both executed on the real PathsManager in a clean sandbox and compared with models/refstore.Paths: "
-    "(roundtrip) every ordered list of 1..3 distinct csvpath texts from a 9-text alphabet (no comment, id, name, id+name "
+    "(roundtrip) every ordered list of 1..3 distinct csvpath texts from an 11-text alphabet (no comment, id, name, id+name "
     "precedence, comment after the csvpath, inner comments, newlines/indentation, multi-line outer comment, quoted header) -> "
     "add, get, every name#id and $name.csvpaths.id, every :from/:to; (history) every sequence of <=3 (thorough <=5) operations over "
     "{add(name in 2, list in 5), remove(name in 2), new instance}, with get/#id/:from/:to for every group and manifest length + "
@@ -15,8 +15,8 @@ RULE = (
     "state = model store after each operation"
 )
 BOUNDS = {
-    "quick": "585 round-trip lists (1..3 of 9 texts) + all 2,379 histories of length<=3 over 13 operations",
-    "thorough": "3,609 round-trip lists (1..4 of 9 texts) + all 402,233 histories of length<=5",
+    "quick": "1,111 round-trip lists (1..3 of 11 texts) + all 2,379 histories of length<=3 over 13 operations",
+    "thorough": "9,031 round-trip lists (1..4 of 11 texts) + all 402,233 histories of length<=5",
 }
 CHUNK = 60
 BUDGET = {"quick": 500, "thorough": 3500}
@@ -35,6 +35,8 @@ T = [
     ("zeta", '~ id: zeta ~\n$f[*][\n    yes()\n    #0 == "a"\n]'),
     ("eta", "~ id: eta\n   description: two line comment with fields\n   owner: me ~ $f[*][yes()]"),
     ("theta", '~ name: theta ~ $f[*][#"a b" == "x"]'),
+    ("iota", "~ ID: iota Name: notme2 ~ $f[*][yes()]"),
+    ("kappa", "~ NAME: kappa ~ $f[2][yes()]"),
 ]
 LISTS = [[0], [1, 2], [2, 1], [1, 2, 6], [7]]
 NAMES = ["p1", "p2"]
